@@ -16,6 +16,10 @@ KINDS = [("eg0", "none"), ("ts", "none"), ("rnd", "none"), ("lucb", "none"), ("u
          ("ucb", "lsh"), ("eg0", "clu"), ("ucb", "tree"), ("tsb", "rad")]
 
 
+COMPANIONS = {"rad_chebyshev": ["eg0", ["Radius", {"radius": 1.0, "metric": "chebyshev"}]],
+              "knn_euclidean": ["eg0", ["KNearest", {"k": 3, "metric": "euclidean"}]]}
+
+
 def meta(tier, seed):
     return {
         "rule": "a case = (bandit kind, data set, test_size, is_ordered, batch_size, is_quick); non-trivial iff an arm is "
@@ -30,7 +34,8 @@ def meta(tier, seed):
                   "simulation does not change when a further Simulator is created and run in the same process",
         "bounds": {"rows": [7, 9] if tier == "quick" else [7, 9, 10], "arms": "[1,2,3] with arm 3 never observed",
                    "test_size": [0.34, 0.5] if tier == "quick" else [0.25, 0.34, 0.5], "batch_size": "0..|test|",
-                   "kinds": ["%s/%s" % k for k in KINDS]},
+                   "kinds": ["%s/%s" % k for k in KINDS],
+                   "companions": "ucb/rad and eg0/knn additionally as the second bandit after %r" % sorted(COMPANIONS)},
         "assumptions": ["LSH neighbourhood statistics reported by the simulator are taken as input (C11 and C15 cover LSH)"],
     }
 
@@ -40,6 +45,12 @@ def shards(tier, seed):
     for ln, nn in KINDS:
         for pattern in ("alt", "blocks", "late2"):
             out.append({"ln": ln, "nn": nn, "pattern": pattern, "tier": tier, "seed": 71 + seed})
+    # the bandit under account is the second of two neighbourhood bandits in one simulation, the first one using
+    # another metric: its account must still be that of its own neighbourhoods
+    for ln, nn in (("ucb", "rad"), ("eg0", "knn")):
+        for comp in COMPANIONS:
+            for pattern in ("alt", "blocks", "late2"):
+                out.append({"ln": ln, "nn": nn, "pattern": pattern, "tier": tier, "seed": 71 + seed, "companion": comp})
     return A.heavy_first(out)
 
 
@@ -124,10 +135,15 @@ def account(sim):
 _LAST = {}
 
 
-def judge(cfg, dec, rew, X, params):
+def judge(cfg, dec, rew, X, params, companion=None):
     prev = _LAST.get("sim")
     try:
-        sim, _orig = simrun.run_sim([cfg], dec, rew, X, params)
+        if companion:
+            ln_c, np_c = COMPANIONS[companion]
+            first = A.config(ln_c, np_c, arms=cfg["arms"], seed=cfg["seed"] + 7)
+            sim, _orig = simrun.run_sim([first, cfg], dec, rew, X, params)
+        else:
+            sim, _orig = simrun.run_sim([cfg], dec, rew, X, params)
         _LAST["sim"] = (sim, account(sim), params)
     except ValueError as e:
         if "Batch size" in str(e):
@@ -135,7 +151,7 @@ def judge(cfg, dec, rew, X, params):
         return ["Simulator raised %s: %s" % (type(e).__name__, str(e)[:200])]
     except Exception as e:                                    # noqa: BLE001
         return ["Simulator raised %s: %s" % (type(e).__name__, str(e)[:200])]
-    n, arms, name = len(dec), cfg["arms"], "b0"
+    n, arms, name = len(dec), cfg["arms"], ("b1" if companion else "b0")
     msgs = []
     if prev is not None:
         # the account of the previous, finished simulation must not move when another simulation runs
@@ -266,12 +282,12 @@ def run_shard(shard):
         if ln == "ts":
             rew = [r % 2 for r in rew]
         for params in param_space(tier, n, shard["seed"]):
-            res = judge(cfg, dec, rew, X, params)
+            res = judge(cfg, dec, rew, X, params, shard.get("companion"))
             if res is None:
                 acc.skip("batch size rejected by the Simulator (larger than its bound)")
                 continue
             acc.traces += 1
-            key = (ln, nn, n, shard["pattern"], str(params))
+            key = (ln, nn, n, shard["pattern"], str(params), shard.get("companion"))
             acc.state(key)
             if isinstance(res, list):
                 msgs, info = res, {}
@@ -288,12 +304,13 @@ def run_shard(shard):
                 acc.sample({"cfg": cfg, "decisions": dec, "rewards": rew, "contexts": X, "params": params})
             for m in msgs[:2]:
                 acc.violation("%s/%s %s" % (ln, nn, m.split(":")[0][:40]),
-                              {"cfg": cfg, "dec": dec, "rew": rew, "X": X, "params": params}, m)
+                              {"cfg": cfg, "dec": dec, "rew": rew, "X": X, "params": params,
+                               "companion": shard.get("companion")}, m)
     return acc.result()
 
 
 def replay(w):
-    res = judge(w["cfg"], w["dec"], w["rew"], w["X"], w["params"])
+    res = judge(w["cfg"], w["dec"], w["rew"], w["X"], w["params"], w.get("companion"))
     if res is None:
         return []
     return res if isinstance(res, list) else res[0]
